@@ -4,6 +4,7 @@
 //! trusted: R15 (statement slicing with captures): FundedChannel::write is ~500 lines of field-by-field serialization; the unit extracts, on every run, (a) the loop that counts the dropped inbound HTLCs, (b) the expression written as the inbound HTLC count, (c) the skip test of the loop that writes the inbound HTLCs, and (d) the expression written between next_holder_htlc_id and update_time_counter (the slot of next_counterparty_htlc_id), verbatim, as one function returning the two written numbers and the number of HTLCs not skipped; every other field of the channel is dropped and not claimed; `x.write(writer)?` of the two numbers becomes returning them
 //! trusted: R6: `for htlc in self.context.pending_inbound_htlcs.iter() { B }` becomes an index loop; R16: `if let &P = &e` is written `if let P = e` / a match (Verus has no `&` patterns); env: InboundHTLCState is a 5-variant skeleton without payloads (the source variants carry resolutions), InboundHTLCOutput skeleton {htlc_id, state}; Ctx/FundedChannel self skeletons
 //! trusted: R15 (deep slices): write_chanmon_internal: the filter predicate that counts the pending monitor events with a legacy record and the match of the loop that writes those records, verbatim; the writer counts record tags (u8 writes) in a ghost field; HTLCUpdate::write writes no tag; MonitorEvent is extracted with opaque payloads; every other field of the monitor is dropped and not claimed
+//! trusted: R15 (deep slices): ChannelMonitor read: for each of the ten length-prefixed collections of the legacy section, the declaration of the length and the range of the `for _ in lo..n` loop that reads the elements, verbatim, as a function of the value read (`Readable::read(reader)?` of the length becomes the parameter); the loop bodies (element decoding, duplicate refusal) and the pre-allocation statement between the two are dropped; machine arithmetic is the verifier's (u64/usize casts checked)
 //! assume: every pending inbound HTLC consumed one counterparty HTLC id: next_counterparty_htlc_id >= pending_inbound_htlcs.len()
 use vstd::prelude::*;
 verus! {
@@ -122,5 +123,227 @@ pub open spec fn has_legacy_record(ev: MonitorEvent) -> bool { ev is HTLCEvent |
 //@with
     MonitorEvent::HolderForceClosedWithInfo { .. } => {},
 //@end
+
+// ---- ChannelMonitor read: the length-prefixed collections ---------------------------------------
+// The writer announces each collection with its element count; the reader must consume exactly that many
+// elements (only the pre-allocation is clamped by MAX_ALLOC_SIZE).
+pub mod monitor_read_bounds {
+use vstd::prelude::*;
+use vstd::std_specs::cmp::*;
+use core::cmp;
+pub assume_specification<T: core::cmp::Ord>[core::cmp::max::<T>](a: T, b: T) -> (r: T)
+    ensures T::obeys_cmp_spec() ==> r == (if b.cmp_spec(&a) == core::cmp::Ordering::Less { a } else { b });
+pub assume_specification<T: core::cmp::Ord>[core::cmp::min::<T>](a: T, b: T) -> (r: T)
+    ensures T::obeys_cmp_spec() ==> r == (if b.cmp_spec(&a) == core::cmp::Ordering::Less { b } else { a });
+//@const lightning/src/chain/channelmonitor.rs MAX_ALLOC_SIZE
+//@extract lightning/src/chain/channelmonitor.rs :: impl ReadableArgs for Option :: fn read
+//@slice R15
+    let counterparty_claimable_outpoints_len $decl:any = $lenexpr:seq; $mid:straight for _ in $lo..$n:cond {
+//@with
+    fn counterparty_claimable_outpoints_len_loop_bound(len_read: u64) -> (u64, u64) {
+        let counterparty_claimable_outpoints_len $decl = $lenexpr;
+        (($lo) as u64, ($n) as u64)
+    }
+//@rw ? R10
+    Readable::read(reader)?
+//@with
+    len_read
+//@rw ? R10
+    <u64 as Readable>::read(reader)?
+//@with
+    len_read
+//@ret r
+//@ensures P C12 the-reader-loops-over-exactly-as-many-counterparty_claimable_outpoints-entries-as-the-length-prefix-announces
+    r.0 == 0 && r.1 == len_read,
+//@mutant loop_bound_clamped_like_the_capacity
+    for _ in 0..counterparty_claimable_outpoints_len { let txid: Txid
+//@with
+    for _ in 0..cmp::min(counterparty_claimable_outpoints_len, (MAX_ALLOC_SIZE / 64) as u64) { let txid: Txid
+//@end
+//@extract lightning/src/chain/channelmonitor.rs :: impl ReadableArgs for Option :: fn read
+//@slice R15
+    let htlcs_count $decl:any = $lenexpr:seq; $mid:straight for _ in $lo..$n:cond {
+//@with
+    fn htlcs_count_loop_bound(len_read: u64) -> (u64, u64) {
+        let htlcs_count $decl = $lenexpr;
+        (($lo) as u64, ($n) as u64)
+    }
+//@rw ? R10
+    Readable::read(reader)?
+//@with
+    len_read
+//@rw ? R10
+    <u64 as Readable>::read(reader)?
+//@with
+    len_read
+//@ret r
+//@ensures P C12 the-reader-loops-over-exactly-as-many-htlcs-entries-as-the-length-prefix-announces
+    r.0 == 0 && r.1 == len_read,
+//@end
+//@extract lightning/src/chain/channelmonitor.rs :: impl ReadableArgs for Option :: fn read
+//@slice R15
+    let counterparty_commitment_txn_on_chain_len $decl:any = $lenexpr:seq; $mid:straight for _ in $lo..$n:cond {
+//@with
+    fn counterparty_commitment_txn_on_chain_len_loop_bound(len_read: u64) -> (u64, u64) {
+        let counterparty_commitment_txn_on_chain_len $decl = $lenexpr;
+        (($lo) as u64, ($n) as u64)
+    }
+//@rw ? R10
+    Readable::read(reader)?
+//@with
+    len_read
+//@rw ? R10
+    <u64 as Readable>::read(reader)?
+//@with
+    len_read
+//@ret r
+//@ensures P C12 the-reader-loops-over-exactly-as-many-counterparty_commitment_txn_on_chain-entries-as-the-length-prefix-announces
+    r.0 == 0 && r.1 == len_read,
+//@end
+//@extract lightning/src/chain/channelmonitor.rs :: impl ReadableArgs for Option :: fn read
+//@slice R15
+    let counterparty_hash_commitment_number_len $decl:any = $lenexpr:seq; $mid:straight for _ in $lo..$n:cond {
+//@with
+    fn counterparty_hash_commitment_number_len_loop_bound(len_read: u64) -> (u64, u64) {
+        let counterparty_hash_commitment_number_len $decl = $lenexpr;
+        (($lo) as u64, ($n) as u64)
+    }
+//@rw ? R10
+    Readable::read(reader)?
+//@with
+    len_read
+//@rw ? R10
+    <u64 as Readable>::read(reader)?
+//@with
+    len_read
+//@ret r
+//@ensures P C12 the-reader-loops-over-exactly-as-many-counterparty_hash_commitment_number-entries-as-the-length-prefix-announces
+    r.0 == 0 && r.1 == len_read,
+//@end
+//@extract lightning/src/chain/channelmonitor.rs :: impl ReadableArgs for Option :: fn read
+//@slice R15
+    let payment_preimages_len $decl:any = $lenexpr:seq; $mid:straight for _ in $lo..$n:cond {
+//@with
+    fn payment_preimages_len_loop_bound(len_read: u64) -> (u64, u64) {
+        let payment_preimages_len $decl = $lenexpr;
+        (($lo) as u64, ($n) as u64)
+    }
+//@rw ? R10
+    Readable::read(reader)?
+//@with
+    len_read
+//@rw ? R10
+    <u64 as Readable>::read(reader)?
+//@with
+    len_read
+//@ret r
+//@ensures P C12 the-reader-loops-over-exactly-as-many-payment_preimages-entries-as-the-length-prefix-announces
+    r.0 == 0 && r.1 == len_read,
+//@end
+//@extract lightning/src/chain/channelmonitor.rs :: impl ReadableArgs for Option :: fn read
+//@slice R15
+    let pending_monitor_events_len $decl:any = $lenexpr:seq; $mid:straight for _ in $lo..$n:cond {
+//@with
+    fn pending_monitor_events_len_loop_bound(len_read: u64) -> (u64, u64) {
+        let pending_monitor_events_len $decl = $lenexpr;
+        (($lo) as u64, ($n) as u64)
+    }
+//@rw ? R10
+    Readable::read(reader)?
+//@with
+    len_read
+//@rw ? R10
+    <u64 as Readable>::read(reader)?
+//@with
+    len_read
+//@ret r
+//@ensures P C12 the-reader-loops-over-exactly-as-many-pending_monitor_events-entries-as-the-length-prefix-announces
+    r.0 == 0 && r.1 == len_read,
+//@end
+//@extract lightning/src/chain/channelmonitor.rs :: impl ReadableArgs for Option :: fn read
+//@slice R15
+    let pending_events_len $decl:any = $lenexpr:seq; $mid:straight for _ in $lo..$n:cond {
+//@with
+    fn pending_events_len_loop_bound(len_read: u64) -> (u64, u64) {
+        let pending_events_len $decl = $lenexpr;
+        (($lo) as u64, ($n) as u64)
+    }
+//@rw ? R10
+    Readable::read(reader)?
+//@with
+    len_read
+//@rw ? R10
+    <u64 as Readable>::read(reader)?
+//@with
+    len_read
+//@ret r
+//@ensures P C12 the-reader-loops-over-exactly-as-many-pending_events-entries-as-the-length-prefix-announces
+    r.0 == 0 && r.1 == len_read,
+//@end
+//@extract lightning/src/chain/channelmonitor.rs :: impl ReadableArgs for Option :: fn read
+//@slice R15
+    let waiting_threshold_conf_len $decl:any = $lenexpr:seq; $mid:straight for _ in $lo..$n:cond {
+//@with
+    fn waiting_threshold_conf_len_loop_bound(len_read: u64) -> (u64, u64) {
+        let waiting_threshold_conf_len $decl = $lenexpr;
+        (($lo) as u64, ($n) as u64)
+    }
+//@rw ? R10
+    Readable::read(reader)?
+//@with
+    len_read
+//@rw ? R10
+    <u64 as Readable>::read(reader)?
+//@with
+    len_read
+//@ret r
+//@ensures P C12 the-reader-loops-over-exactly-as-many-waiting_threshold_conf-entries-as-the-length-prefix-announces
+    r.0 == 0 && r.1 == len_read,
+//@end
+//@extract lightning/src/chain/channelmonitor.rs :: impl ReadableArgs for Option :: fn read
+//@slice R15
+    let outputs_to_watch_len $decl:any = $lenexpr:seq; $mid:straight for _ in $lo..$n:cond {
+//@with
+    fn outputs_to_watch_len_loop_bound(len_read: u64) -> (u64, u64) {
+        let outputs_to_watch_len $decl = $lenexpr;
+        (($lo) as u64, ($n) as u64)
+    }
+//@rw ? R10
+    Readable::read(reader)?
+//@with
+    len_read
+//@rw ? R10
+    <u64 as Readable>::read(reader)?
+//@with
+    len_read
+//@ret r
+//@ensures P C12 the-reader-loops-over-exactly-as-many-outputs_to_watch-entries-as-the-length-prefix-announces
+    r.0 == 0 && r.1 == len_read,
+//@end
+//@extract lightning/src/chain/channelmonitor.rs :: impl ReadableArgs for Option :: fn read
+//@slice R15
+    let outputs_len $decl:any = $lenexpr:seq; $mid:straight for _ in $lo..$n:cond {
+//@with
+    fn outputs_len_loop_bound(len_read: u64) -> (u64, u64) {
+        let outputs_len $decl = $lenexpr;
+        (($lo) as u64, ($n) as u64)
+    }
+//@rw ? R10
+    Readable::read(reader)?
+//@with
+    len_read
+//@rw ? R10
+    <u64 as Readable>::read(reader)?
+//@with
+    len_read
+//@ret r
+//@ensures P C12 the-reader-loops-over-exactly-as-many-outputs-entries-as-the-length-prefix-announces
+    r.0 == 0 && r.1 == len_read,
+//@mutant inner_loop_runs_one_short
+    for _ in 0..outputs_len { outputs.push
+//@with
+    for _ in 1..outputs_len { outputs.push
+//@end
+}
 }
 fn main() {}
